@@ -159,4 +159,24 @@ example : recurTymes 1 (doistDo [] 2 0 none 100 [.group 7 3 false [k2Leaf] []]).
 example : recurTymes 1 (doistDo [] 2 0 none 100 [.group 7 3 false [.group 9 0 false [k2Leaf] []] []]).evs
     = [0, 4, 10, 16, 22, 28] := by decide
 
+/-! ### faults (tests only — NOT covered by a theorem)
+
+With a fault the nested run closes a group's survivors before the parent's later siblings (children before parent, C02), so
+nested = flat can only be expected when the failing doer's group comes LAST at every level.  The simulation proof above is for
+fault-free programs; extending `Sim` by the raise path (`runCycle` returning `some x`, `closeAllRev (c.pr ++ un)` on both sides)
+is not done.  The two evaluations below are TESTS on one program each; the general case under the "last group" guard is covered by
+the oracle (two real runs) and the correspondence in `harness/props/C04.py`. -/
+
+def faultLeaf : Spec Nat := .leaf 4 .ok [yS (some 0), yS (some 0), ⟨[], .raise .err⟩]
+def longLeaf (i : Id) : Spec Nat := .leaf i .ok [yS (some 0), yS (some 0), yS (some 0), yS (some 0), yS (some 0)]
+def ceaseIds (evs : List (Ev Nat)) : List Id := (evs.filter (fun e => e.kind == .cease && e.id != 9)).map Ev.id
+
+/-- test: the failing doer's group is last: survivors are closed 5, 3, 2, 1 nested and flat -/
+example : ceaseIds (doistDo [] 1 0 none 50 [longLeaf 1, longLeaf 2, .group 9 0 false [longLeaf 3, faultLeaf, longLeaf 5] []]).evs = [5, 3, 2, 1]
+    ∧ ceaseIds (doistDo [] 1 0 none 50 [longLeaf 1, longLeaf 2, longLeaf 3, faultLeaf, longLeaf 5]).evs = [5, 3, 2, 1] := by decide
+
+/-- test: the group is NOT last: nested closes its survivors first (5, 3, then 2), flat closes in reverse enter order (2, 5, 3) — by design -/
+example : ceaseIds (doistDo [] 1 0 none 50 [.group 9 0 false [longLeaf 3, faultLeaf, longLeaf 5] [], longLeaf 2]).evs = [5, 3, 2]
+    ∧ ceaseIds (doistDo [] 1 0 none 50 [longLeaf 3, faultLeaf, longLeaf 5, longLeaf 2]).evs = [2, 5, 3] := by decide
+
 end Hio.Sched
